@@ -214,6 +214,8 @@ def tcS (Î¦ : FEnv) (Gg : Env) (Ï : Option Ty) : Nat â†’ List SEnv â†’ Stmt F â
     | .callS (.call name args) =>
       if name = lit "print" then
         if args.all (fun a => (tc Î¦ G n a none).isSome) then some Gs else none
+      else if name = lit "test" then
+        if args.all (fun a => tc Î¦ G n a (some .any) == some .any) then some Gs else none
       else match builtinSig name with
         | some sig =>
           match inferAll (fun a => tc Î¦ G n a none) args with
@@ -249,6 +251,7 @@ def checkProg (sigs : List (Str Ã— FSig)) (globals : List (Str Ã— Ty)) (prog : P
       (p.2.ret.isNone || (blockTerms fd.body && fnOkB false fd.body))
     | none => false) &&
   tcB (fenvOf sigs) (envOf globals) none fuel [] prog.stmts &&
+  prog.handlers.all (fun h => tcB (fenvOf sigs) (envOf globals) none fuel [paramScope (h.params.map Prod.fst) (h.params.map Prod.snd) []] h.body) &&
   optAll (envOf globals (lit "err")) (fun t => decide (t = .bool)) && optAll (envOf globals (lit "errmsg")) (fun t => decide (t = .str))
 
 end EvyV.TS
